@@ -1,51 +1,68 @@
 ------------------------------- MODULE GF2Gen -------------------------------
 (***************************************************************************)
 (* C50 generator / model check.  One behaviour per binary matrix of every  *)
-(* shape in Shapes: Gauss-Jordan elimination runs one row operation per    *)
-(* TLC step; TLC checks at every step that the row space is preserved and  *)
-(* T*A = mat, and at the end that the elimination read-offs (RREF, rank,   *)
-(* solvability, particular solution, number of solutions, kernel basis)    *)
-(* equal the brute-force definitions over all 2^n vectors, for every       *)
-(* right-hand side.  The finished case is emitted with its expected values *)
-(* for REPLAY into pennylane.math.binary_*.                                *)
+(* shape in Shapes (and per matrix in Extra):                              *)
+(*   prep  the brute-force objects are computed once: rsp = the row space  *)
+(*         (all 2^m row combinations) and img = the map x |-> A x over all *)
+(*         2^n vectors;                                                    *)
+(*   elim  Gauss-Jordan elimination runs one row operation per TLC step;   *)
+(*         TLC checks at every step that the row space is preserved and    *)
+(*         T*A = mat;                                                      *)
+(*   done  TLC checks that the elimination read-offs (RREF, rank,          *)
+(*         solvability, particular solution, number of solutions, kernel   *)
+(*         basis, pivot columns) equal the brute-force definitions, for    *)
+(*         every right-hand side, and the case is emitted with its         *)
+(*         expected values for REPLAY into pennylane.math.binary_*.        *)
 (***************************************************************************)
 EXTENDS GF2, Json
 CONSTANTS Shapes,          \* set of <<m, n>>: every binary matrix of these shapes is enumerated
           Extra            \* set of [m, n, A]: further (larger, seeded) matrices
-VARIABLES m, n, A, e, done
-vars == <<m, n, A, e, done>>
+VARIABLES m, n, A, e, pc, rsp, img
+vars == <<m, n, A, e, pc, rsp, img>>
 Init == /\ \/ \E sh \in Shapes : m = sh[1] /\ n = sh[2] /\ A \in Mats(m, n)
            \/ \E x \in Extra : m = x.m /\ n = x.n /\ A = x.A
-        /\ e = ElimInit(A, m) /\ done = FALSE
-Step == ~ElimDone(e, m, n) /\ e' = ElimStep(e, m, n) /\ UNCHANGED <<m, n, A, done>>
+        /\ e = ElimInit(A, m) /\ pc = "prep" /\ rsp = {} /\ img = <<>>
+Prep == /\ pc = "prep" /\ pc' = "elim"
+        /\ rsp' = RowSpace(A, m, n)
+        /\ img' = [x \in Vecs(n) |-> MulVec(A, x, m, n)]
+        /\ UNCHANGED <<m, n, A, e>>
+\* (= TRUE / = FALSE keep TLC from splitting the disjunction in ElimDone into two sub-actions, which would emit twice)
+Step == /\ pc = "elim" /\ ElimDone(e, m, n) = FALSE
+        /\ e' = ElimStep(e, m, n) /\ UNCHANGED <<m, n, A, pc, rsp, img>>
 BitsOf(k, w) == [i \in 1..w |-> (k \div 2^(w - i)) % 2]
 Sols == [k \in 1..2^m |-> LET b == BitsOf(k - 1, m)  ok == SolvableE(e, b, m) IN
             [b |-> b, ok |-> ok, x |-> IF ok THEN ParticularE(e, b, m, n) ELSE <<>>, ns |-> NumSolutionsE(e, b, m, n)]]
-\* (= TRUE keeps TLC from splitting the disjunction in ElimDone into two sub-actions, which would emit twice)
-Emit == /\ ElimDone(e, m, n) = TRUE /\ ~done /\ done' = TRUE /\ UNCHANGED <<m, n, A, e>>
+Emit == /\ pc = "elim" /\ ElimDone(e, m, n) = TRUE /\ pc' = "done" /\ UNCHANGED <<m, n, A, e, rsp, img>>
         /\ PrintT(ToJson([m |-> m, n |-> n, A |-> A, rref |-> e.mat, rank |-> RankE(e), piv |-> e.piv,
                           sols |-> Sols, kern |-> KernelBasisE(e, n)]))
-Next == Step \/ Emit
+Next == Prep \/ Step \/ Emit
 
+\* the brute-force objects, read from the state
+ColSp == {img[x] : x \in Vecs(n)}
+SolSet(b) == {x \in Vecs(n) : img[x] = b}
+\* span of the first j-1 columns = images of the vectors supported on 1..j-1
+PrefixSpan(j) == {img[x] : x \in {y \in Vecs(n) : \A k \in j..n : y[k] = 0}}
+\* (checked on the states right after prep)
+PrepOK == (pc = "elim" /\ e.c = 1) => /\ rsp = RowSpace(A, m, n) /\ ColSp = ColSpace(A, m, n)
+                         /\ \A b \in Vecs(m) : SolSet(b) = Solutions(A, b, m, n)
 \* every elimination step is a row operation: row space preserved, transformation tracked
-StepInv == /\ RowSpace(e.mat, m, n) = RowSpace(A, m, n)
-           /\ MatMul(e.T, A, m, m, n) = e.mat
-           /\ RankE(e) = e.r - 1
+StepInv == pc # "prep" => /\ RowSpace(e.mat, m, n) = rsp
+                          /\ MatMul(e.T, A, m, m, n) = e.mat
+                          /\ RankE(e) = e.r - 1
 \* (ELIM) = (BF) when the elimination has finished
-RrefAgree == done => /\ e.mat = RrefBF(A, m, n) /\ IsRREF(e.mat, m, n)
-                                  /\ \A R \in {A} : IsRREF(R, m, n) => R = e.mat     \* an RREF input is a fixpoint
-RankAgree == done => /\ RankE(e) = RankBF(A, m, n) /\ RankE(e) = ColRankBF(A, m, n)
-SolveAgree == done =>
-  \A b \in Vecs(m) : LET S == Solutions(A, b, m, n) IN
-     /\ SolvableE(e, b, m) <=> S # {}
-     /\ SolvableE(e, b, m) <=> b \in ColSpace(A, m, n)
-     /\ SolvableE(e, b, m) => ParticularE(e, b, m, n) \in S
+RrefAgree == pc = "done" => /\ e.mat = RrefOfSpace(rsp, m, n) /\ IsRREF(e.mat, m, n)
+                            /\ (IsRREF(A, m, n) => A = e.mat)                      \* an RREF input is a fixpoint
+RankAgree == pc = "done" => /\ 2^RankE(e) = Cardinality(rsp) /\ 2^RankE(e) = Cardinality(ColSp)
+SolveAgree == pc = "done" =>
+  \A b \in Vecs(m) : LET S == SolSet(b)  ok == SolvableE(e, b, m) IN
+     /\ ok <=> S # {}
+     /\ ok <=> b \in ColSp
+     /\ ok => ParticularE(e, b, m, n) \in S
      /\ Cardinality(S) = NumSolutionsE(e, b, m, n)
-KernelAgree == done =>
-  LET kb == KernelBasisE(e, n)  k == n - RankE(e) IN
-     /\ Len(kb) = k /\ RowSpace(kb, k, n) = Kernel(A, m, n) /\ Cardinality(Kernel(A, m, n)) = 2^k
+KernelAgree == pc = "done" =>
+  LET kb == KernelBasisE(e, n)  k == n - RankE(e)  ker == SolSet(Zero(m)) IN
+     /\ Len(kb) = k /\ RowSpace(kb, k, n) = ker /\ Cardinality(ker) = 2^k
 \* the pivot columns are the greedy left-to-right column basis
-GreedyAgree == done =>
-  \A j \in 1..n : (\E i \in 1..RankE(e) : e.piv[i] = j)
-                  <=> IndependentBF(Col(A, j, m), [i \in 1..m |-> SubSeq(A[i], 1, j - 1)], m, j - 1)
+GreedyAgree == pc = "done" =>
+  \A j \in 1..n : (\E i \in 1..RankE(e) : e.piv[i] = j) <=> Col(A, j, m) \notin PrefixSpan(j)
 =============================================================================
